@@ -565,8 +565,10 @@ def run(ctx):
         "Calc_C is interpreted for all 14 SplitType values in a non-commutative matrix algebra (atoms C, S, projP, projM, IxI, sqrtC; scalar selectors Rp, Rm); with "
         "projM = Id - projP and Rm = 1 - Rp the sum cP + cM is shown selector-free and equal to C (lambda IxI + 2 mu Id for Miehe/Amor) by normal form - the partition of "
         "stress and energy for every strain state at once. Structural rules: projM / M2 defined as complements, (Ne, nPg) masks applied with both axes, history writers and "
-        "maximum rule, regularisation tables. NOT decided: agreement of the closed-form eigen-projectors with an eigendecomposition, finiteness at degenerate states, "
-        "monotonicity of the solved damage."
+        "maximum rule, regularisation tables. The closed-form eigen-decompositions (2-D and 3-D) are interpreted in exact arithmetic on states with every pattern of "
+        "repeated eigenvalues (rotated and axis-aligned, mixed inside one element): projectors (R17.12, R17.15) and projP == d eps+ / d eps (R17.13, R17.16); inverse-trigonometric and square-root "
+        "arguments are clamped (R17.14, R17.17); the history field is kept per element group (R17.18). NOT decided: round-off classification of nearly degenerate states, monotonicity of the "
+        "solved damage (bound-constrained solvers are trusted)."
     )
     ctx.trust("sa/props/c17.py NC (non-commutative polynomials with relations C.S = Id, sqrtC.isqrtC = Id, symmetric atoms)")
     split_rule(ctx)
